@@ -3,7 +3,9 @@
 // Harness for C13 (workers stop promptly on cancellation) and C08 (fail-stop of the daemon):
 // fault injection on the REAL code.  C13 runs the real worker functions in-process, puts each
 // into one of its blocking states, cancels the context and measures the time until the
-// function returns and what it delivers afterwards.  C08 builds the daemon binary from the
+// function returns and what it delivers afterwards (the sshd-side hand-off also with a processor configured on a
+// longer-lived context than the worker's, c13_handoff.go; and on the built binary with the group context
+// cancelled by a sibling's failure, c13_daemon.go).  C08 builds the daemon binary from the
 // working tree, runs it on real FIFOs and injects each failure cause and signal, idle and
 // under sustained audit load, observing exit status and time-to-exit.
 // No Coq case files: the tie to the model is the generated table Gen/Blocking.v (one
@@ -62,6 +64,9 @@ func record(sum *hutil.Summary, r result) {
 }
 
 func describe(r result) string {
+	if r.Prop == "C13" && r.Scenario == "sibling-failure" {
+		return fmt.Sprintf("daemon still running %v after a sibling worker failed (%s) while the sshd worker was handing logins to the correlator: a worker did not return although its (group) context was cancelled", c08Bound, r.Variant)
+	}
 	if r.Prop == "C13" {
 		if !r.Returned {
 			return fmt.Sprintf("worker in state %s (%s) did not return within %v of the cancellation", r.Scenario, r.Variant, c13Bound)
@@ -112,6 +117,7 @@ func main() {
 			reps = 30
 		}
 		runC13(sum, tmp, reps, seed)
+		sum.Notes = append(sum.Notes, c13Notes...)
 	case "C08":
 		sum = hutil.NewSummary("C08", seed, "non-trivial: the daemon was started from the built binary and the failure cause was injected (idle, or after the audit writer had been flooding the pipe)")
 		reps := *n
